@@ -74,10 +74,16 @@ def contract_case(task):
     f = make_env(cfg["env"], cfg)
     events = []
 
+    fault_at = task.get("fault_at")
+
     def answer(k, y):
+        if fault_at is not None and k == fault_at:
+            raise RuntimeError("injected objective failure")
         events.append(("eval", tuple(y.tolist())))
         return f(k, y)
     p = EnvProblem(N, lo, up, answer)
+    other = None
+    foreign = []      # events recorded while an unrelated solver was working
     pre = sum(comp)
     msgs = []
     buf = io.StringIO()
@@ -85,19 +91,62 @@ def contract_case(task):
         try:
             s = Solver(p, SolverParameters(eps=0.0, r=2.0, itersLimit=max(1, pre + extra)))
             s.AddListener(make_listener_class(mask, events)())
+            if task.get("other"):
+                # an unrelated solver without listeners of its own, constructed after the listener was attached and
+                # iterated between this solver's calls: the listener must hear nothing of it
+                N2 = 1 if N > 1 else 2
+                p2 = EnvProblem(N2, [0.0] * N2, [1.0] * N2, lambda k, y: float(np.sum(y)))
+                other = Solver(p2, SolverParameters(eps=0.0, r=2.0, itersLimit=4))
+
+            def poke(n=1):
+                if other is not None:
+                    e0 = len(events)
+                    other.DoGlobalIteration(n)
+                    foreign.extend(events[e0:])
             calls = []
+            failed = False
             for b in comp:
                 e0 = len(events)
-                s.DoGlobalIteration(b)
-                calls.append((b, events[e0:]))
+                try:
+                    s.DoGlobalIteration(b)
+                    calls.append((b, events[e0:]))
+                except RuntimeError:
+                    failed = True      # the call that hit the injected failure: nothing is required of it
+                poke()
             e0 = len(events)
             sol = s.Solve()
             solve_events = events[e0:]
+            if other is not None:
+                e0 = len(events)
+                other.Solve()
+                foreign.extend(events[e0:])
         except BaseException as e:
             over = [c for b, c in enumerate(CALLBACKS) if mask >> b & 1]
             return [f"N={N}: listener overriding {over}, batches {list(comp)} then Solve: {type(e).__name__}: {e}"]
     over = {c for b, c in enumerate(CALLBACKS) if mask >> b & 1}
-    ctx = f"N={N}: listener overriding {sorted(over)}, batches {list(comp)} then Solve(+{extra})"
+    ctx = f"N={N}: listener overriding {sorted(over)}, batches {list(comp)} then Solve(+{extra})" + \
+          (f", objective fails at evaluation {fault_at}" if fault_at else "") + (", unrelated solver in between" if other else "")
+    if foreign:
+        msgs.append(f"{ctx}: the listener received {[e[0] for e in foreign]} while an unrelated solver was working")
+    if fault_at is not None:
+        # only the per-call contract of the calls that completed (and of Solve's iterations) is judged after a failure
+        if "OnEndIteration" in over:
+            for (b, evs) in calls:
+                its = [e for e in evs if e[0] == "OnEndIteration"]
+                evals = [e[1] for e in evs if e[0] == "eval"]
+                if len(its) != 1 or [q[1] for q in its[0][1]] != evals:
+                    msgs.append(f"{ctx}: OnEndIteration of a completed DoGlobalIteration({b}) listed "
+                                f"{[[q[1] for q in i[1]] for i in its]}, the call evaluated {evals}")
+            cur = []
+            for e in solve_events:
+                if e[0] == "eval":
+                    cur.append(e[1])
+                elif e[0] == "OnEndIteration":
+                    got = [q[1] for q in e[1]]
+                    if got != cur:
+                        msgs.append(f"{ctx}: during Solve OnEndIteration listed {got}, evaluated since the last notification: {cur}")
+                    cur = []
+        return msgs
     # BeforeMethodStart
     if "BeforeMethodStart" in over:
         st = [i for i, e in enumerate(events) if e[0] == "BeforeMethodStart"]
@@ -291,6 +340,11 @@ def run(ctx):
                             if 0 in comp and extra not in (0, 2):
                                 continue
                             tasks.append(dict(N=N, mask=mask, comp=list(comp), extra=extra))
+                            if 0 not in comp and extra == 2 and mask in (2, 7, 15) and n >= 1:
+                                tasks.append(dict(N=N, mask=mask, comp=list(comp), extra=extra, other=True))
+                            if 0 not in comp and extra == 2 and mask in (2, 15) and n >= 2:
+                                for fa in range(2, n + 1):
+                                    tasks.append(dict(N=N, mask=mask, comp=list(comp), extra=extra, fault_at=fa))
     out = pmap(contract_case, tasks, chunksize=16)
     for t, msgs in zip(tasks, out):
         for m in msgs:
